@@ -12,6 +12,8 @@ Python → model
 * `math.pow(d, 2.0)` → parameter `sq`; instances `Float.pow · 2.0`, `fun q => q * q`
 * the three loops of `compare` (flags with early `return 0`; if no flag is set, the two squared
   distances to the box corner; `dist1 < dist2 → -1 else 1`) → `boxScan` + `cornerDist`
+* repaired code: in the same-box branch `ParetoDominance().compare` decides first → `epsCompareP`;
+  `epsCompare` is the comparator as originally pinned
 * `EpsilonBoxArchive.add`: as `Archive.add`, plus `improvements += 1` when accepted and
   `all(not same_box(new, m) for m in contents-before)`
 -/
@@ -63,6 +65,23 @@ def epsCompare (fl sq : α → α) (constrained : Bool) (dirs : List Bool) (eps 
     | .second => 1
     | .same =>
       if cornerDist fl sq dirs eps a.objs 0 < cornerDist fl sq dirs eps b.objs 0 then -1 else 1
+
+/-- the comparator as repaired: inside one box a solution that Pareto-dominates the other is preferred outright
+(`ParetoDominance().compare` is consulted first); only mutually non-dominated box mates are separated by the
+corner distance.  In exact arithmetic this is `epsCompare` (theorem `C05.epsCompareP_eq`); on doubles it differs
+exactly where the two corner distances round to the same value or to the wrong order. -/
+def epsCompareP (fl sq : α → α) (constrained : Bool) (dirs : List Bool) (eps : List α) (a b : Sol α) : Int :=
+  match cvBlock constrained a.cv b.cv with
+  | some r => r
+  | none =>
+    match boxScan fl dirs eps a.objs b.objs false false with
+    | .incomparable => 0
+    | .first => -1
+    | .second => 1
+    | .same =>
+      let p := paretoCompare constrained dirs a b
+      if p == -1 then -1 else if p == 1 then 1
+      else if cornerDist fl sq dirs eps a.objs 0 < cornerDist fl sq dirs eps b.objs 0 then -1 else 1
 
 /-- `EpsilonDominance.same_box` -/
 def sameBox (fl : α → α) (constrained : Bool) (dirs : List Bool) (eps : List α) (a b : Sol α) : Bool :=
